@@ -10,7 +10,7 @@ for l in open(os.path.join(d, 'detection.txt')):
         caught.append(parts[0]); oracles[parts[0]] = [p for p in parts[2:]]
 meta = {
  "property": am.get("property"),
- "origin": "written by an independent sub-agent that saw only the property text and a scratch worktree of /repo (rounds 7-10: asked for a change that needs a specific fault, interleaving, configuration or boundary to manifest (round 9: hard to reach - several instances, coincidences, hundreds of rounds))",
+ "origin": "written by an independent sub-agent that saw only the property text and a scratch worktree of /repo (rounds 7-11: asked for a change that needs a specific fault, interleaving, configuration or boundary to manifest (round 9: hard to reach - several instances, coincidences, hundreds of rounds))",
  "summary": am.get("summary"),
  "needs_to_manifest": am.get("what_it_needs_to_manifest"),
  "demo": "demo.rs (" + str(am.get("how_demo_was_run"))[:400] + ")",
